@@ -215,6 +215,12 @@ func (f *File) enterWriteMode() error {
 		"name": f.name,
 	})
 
+	// Writing continues where reading stopped
+	pos := int64(0)
+	if f.readOpReader != nil {
+		pos = int64(f.readOpReader.BytesRead)
+	}
+
 	if f.readOpReader != nil || f.readOpWriter != nil {
 		if err := f.closeWithoutLocking(); err != nil {
 			return err
@@ -277,7 +283,7 @@ func (f *File) enterWriteMode() error {
 		}
 
 		if !f.flags.Append {
-			if _, err := f.writeBuf.Seek(0, io.SeekStart); err != nil {
+			if _, err := f.writeBuf.Seek(pos, io.SeekStart); err != nil {
 				return err
 			}
 		}
